@@ -319,6 +319,23 @@ def check(ctx, rep):
                    'learns that it was cleared and reports elapsed' % (sorted(rc), nc, sorted(rp), np_))
     else:
         rep.missing('R18.i', 'crux_time::Time::clear')
+    # R18.j: "clears arriving after the outcome are ignored": once the timer task has reported, its end of the clear channel is gone and
+    # the send in TimerHandle::clear fails — that failure is the late clear, and it must be a no-op: clear() has no way of panicking on
+    # its own (no unwrap / expect / assert / index), and makes exactly one send of the handle's own id (seeded: `.expect("timer task
+    # should be listening")` on the send — a clear after the outcome panics in the app)
+    from rules.common import panic_sites as _panic_sites
+    rep.rule('R18.j', 'TimerHandle::clear cannot panic: a clear after the outcome is a no-op', floor=1)
+    hclears = [f for f in time.built if f.kind == 'AssocFn' and f.name == 'clear' and path_matches(f.assoc.get('self_adt'), 'crux_time::command::TimerHandle')
+               and not f.assoc.get('trait')]
+    if len(hclears) != 1:
+        rep.missing('R18.j', 'crux_time::command::TimerHandle::clear')
+    else:
+        fam_h = [hclears[0]] + time.closures_of(hclears[0])
+        ps_ = [(g.where(bb), kind, detail) for g in fam_h for bb, kind, detail, t in _panic_sites(g)]
+        sends_ = [(g, bb, t) for g in fam_h for bb, t in g.calls() if last_seg(norm(t.get('callee') or '')) == 'send' and 'oneshot' in norm(t.get('callee') or '')]
+        rep.expect('R18.j', not ps_ and len(sends_) == 1, 'TimerHandle::clear|late-clear-is-a-no-op', 'one send on the clear channel, its failure discarded, no panic site',
+                   'TimerHandle::clear can panic (%s; %d send(s)): after the timer has reported its outcome the receiving end is gone and the send '
+                   'fails — a late clear must be ignored, not crash the app' % (ps_, len(sends_)))
     rep.assume('futures oneshot: a Receiver whose Sender was dropped reports is_terminated and is skipped by select_biased!')
     rep.assume('NOT DECIDED: every interleaving of fire / clear / drop / late answers; the legacy API after the outcome')
 
